@@ -45,6 +45,8 @@
 (*   np,nw,nb  number of Prefetch / Wait / BackgroundFetch callers         *)
 (*   f0    registry chunks fetched while the layer was resolved (TOC)      *)
 (*   rd    files that Read may read in this scenario                       *)
+(*   pt    files (of >= 3 chunks, alone in their streams) of which ReadPart *)
+(*         reads a single chunk (the first or a middle one)                *)
 (*   ro    registry goes off: 0 never, 1 only after background fetch has   *)
 (*         ended, 2 at any time (rd and ro only bound the state graphs)    *)
 (* Sets inside sc are sequences (they come from JSON).                     *)
@@ -74,6 +76,8 @@ CONSTANTS
     CapAtBlobSize,       \* TRUE: configured size > blob size is replaced by the blob size
     BgAllFiles,          \* TRUE: background fetch caches every regular file; FALSE: skips files seen by the pre-reader
     WaitHonoursTimeout,  \* TRUE: wait() has a timeout branch
+    ThresholdOnEffective,\* TRUE: PrefetchAsyncSize is compared with the effective range (after the landmark lookup / cap);
+                         \* FALSE: with the configured size, before the landmarks are looked up
     AllowReg             \* RegistryOff/On actions enabled in this configuration
 
 VARIABLES
@@ -164,13 +168,14 @@ Range ==
        THEN pf' = "finishing" /\ pfres' = "ok" /\ UNCHANGED psize
        ELSE pf' = "ranged" /\ psize' = RangeSize /\ UNCHANGED pfres
     /\ bg' = IF bg = "stalled" THEN "suspended" ELSE bg    \* DoPrioritizedTask cancels running background bodies
-    /\ UNCHANGED <<sc, pc, runner, pinfo, waiter, wc, bc, brunner, bgres, prio, fetched, lst, reg>>
+    /\ waiter' = IF ~ThresholdOnEffective /\ sc.thr > 0 /\ sc.cfg > sc.thr THEN "closed" ELSE waiter
+    /\ UNCHANGED <<sc, pc, runner, pinfo, wc, bc, brunner, bgres, prio, fetched, lst, reg>>
     /\ last' = [act |-> "Range", size |-> psize', req |-> {}]
 
 AsyncThreshold ==
     /\ pf = "ranged"
     /\ pf' = "thresh"
-    /\ waiter' = IF sc.thr > 0 /\ psize > sc.thr THEN "closed" ELSE waiter
+    /\ waiter' = IF ThresholdOnEffective /\ sc.thr > 0 /\ psize > sc.thr THEN "closed" ELSE waiter
     /\ UNCHANGED <<sc, pc, runner, pfres, psize, pinfo, wc, bc, brunner, bg, bgres, prio, fetched, lst, reg>>
     /\ last' = [act |-> "AsyncThreshold", req |-> {}]
 
@@ -360,6 +365,25 @@ Read(f) ==
     IF need = {} \/ reg = "on" THEN ReadG(f, TRUE, need, MarkFull(lst, {f}), need)
     ELSE ReadG(f, FALSE, {}, lst, need)
 
+\* A read of ONE chunk of file f (k = 1: the first, k = 2: a middle one) through the on-demand path: that chunk is
+\* cached, the file is then partly cached (pt files have at least 3 chunks and k never names the last one, so partial
+\* reads alone never complete a file). Which registry chunks hold that chunk is below the spec's (file) granularity:
+\* the step fetches some of the file's missing registry chunks.
+PartState(l, f) == [l EXCEPT ![f] = IF @ = 2 THEN 2 ELSE 1]
+ReadPartG(f, k, ok, got, l2, rq) ==
+    /\ ~Held /\ reg = "on" /\ ok
+    /\ f \in ToSet(sc.pt) /\ k \in 1..2
+    /\ got \subseteq GotMax({f})
+    /\ l2[f] = PartState(lst, f)[f] /\ Monotone(l2, {f})
+    /\ fetched' = fetched \cup got
+    /\ lst' = l2
+    /\ last' = [act |-> "ReadPart", f |-> f, k |-> k, ok |-> ok, req |-> rq]
+    /\ UNCHANGED <<sc, pc, runner, pf, pfres, psize, pinfo, waiter, wc, bc, brunner, bg, bgres, prio, reg>>
+ReadPart(f, k) ==
+    LET miss == IF lst[f] = 2 THEN {} ELSE Span(f) \ fetched
+        one == IF miss = {} THEN {} ELSE {CHOOSE x \in miss : \A y \in miss : IF k = 1 THEN x <= y ELSE x >= y}
+    IN ReadPartG(f, k, TRUE, one, PartState(lst, f), one)
+
 RegistryOff ==
     /\ AllowReg /\ reg = "on" /\ ~Held
     /\ sc.ro = 2 \/ (sc.ro = 1 /\ bg = "end")
@@ -382,6 +406,7 @@ Next ==
     \/ \E b \in 1..sc.nb : BgCall(b) \/ BgReturn(b)
     \/ BgStall \/ PrioBegin \/ PrioEnd
     \/ \E f \in Files : Read(f)
+    \/ \E f \in ToSet(sc.pt), k \in 1..2 : ReadPart(f, k)
     \/ RegistryOff \/ RegistryOn
 
 Spec == Init /\ [][Next]_vars
@@ -430,6 +455,16 @@ AfterBackgroundFetchOfflineReadable ==
 
 \* waiting returns when prefetch ends or fails: the waiter is closed whenever prefetch is over ...
 WaiterClosedAtEnd == pf = "end" => waiter = "closed"
+\* ... Wait returns nil exactly when the waiter is closed, and the waiter is closed only when that is due: prefetch is
+\* over, or it went on in the background because the EFFECTIVE range (landmark offset, or configured size capped at the
+\* blob size) exceeds PrefetchAsyncSize, or a caller's timeout closed it. (Check relies on this: "prefetch has
+\* completed" is what a nil Wait tells it before the container reads its prioritized files.)
+Effective == IF sc.lm = "noprefetch" THEN 0 ELSE Expected
+WaitNilOnlyIfEndedOrAsync ==
+    waiter = "closed" =>
+        \/ pf = "end"
+        \/ sc.thr > 0 /\ Effective > sc.thr /\ pf \in {"ranged", "thresh", "stalled", "fetched", "finishing"}
+        \/ \E w \in 1..sc.nw : wc[w] = "timeout"
 \* ... a wait on a closed waiter returns nil, a wait never returns nil while the waiter is open ...
 WaitResult ==
     /\ last.act = "WaitReturn" => last.res = "ok"
